@@ -106,7 +106,14 @@ def resolve_syntatic_sugar(a: ast.AST) -> ast.AST:
 
             arg_values = a.args
             arg_names = [ast.Constant(value=n) for n in sig_arg_names[: len(arg_values)]]
-            arg_lookup = {a.arg: a.value for a in a.keywords}
+            arg_lookup = {}
+            for k in a.keywords:
+                if k.arg in arg_lookup or k.arg in sig_arg_names[: len(arg_values)]:
+                    raise ValueError(
+                        f"Multiple values for argument {k.arg} of dataclass {a.func.value}"
+                        f" - {ast.unparse(node)}."
+                    )
+                arg_lookup[k.arg] = k.value
             for name in sig_arg_names[len(arg_values) :]:
                 if name in arg_lookup:
                     arg_values.append(arg_lookup[name])
